@@ -11,7 +11,8 @@ def LOOP(radix):
   __CPROVER_decreases(vx_len - __CPROVER_POINTER_OFFSET(s))''' % radix
 U_RULES = MK + [
     (r'integer_chars_state state = integer_chars_state::initial;', 'uint8_t state = integer_chars_state_initial;', 1),
-    (r'state = integer_chars_state::(binary|octal|decimal|base16);', r'state = integer_chars_state_\1; vx_radix = VX_RADIX_OF(state); vx_dstart = (size_t)(s - vx_s);', 4, 6),
+    (r'state = integer_chars_state::(binary|base16);\s*\+\+s;', r'state = integer_chars_state_\1; ++s; vx_radix = VX_RADIX_OF(state); vx_dstart = (size_t)(s - vx_s);', 2, 3),
+    (r'state = integer_chars_state::(octal|decimal);', r'state = integer_chars_state_\1; vx_radix = VX_RADIX_OF(state); vx_dstart = (size_t)(s - vx_s);', 2, 3),
     (r'integer_chars_state::(\w+)', r'integer_chars_state_\1', 6, 20),
     (r'static constexpr T (max_value(?:_div_\d+)?) = ', r'const uint64_t \1 = ', 8), (r'\(ext_traits::integer_limits<T>::max\)\(\)', 'UINT64_MAX', 4),
     (r'\bT x = 0;', 'uint64_t x = 0;', 4), (r'CharT c = \*s;', 'char c = *s;', 1),
@@ -34,6 +35,8 @@ U64 = [
      '%s.ec == VX_ERRC_ok ==> (vx_len >= 1 && %s.ptr == vx_s + vx_len && !vx_over && !vx_bad_digit && (vx_radix != 0 ==> (vx_cnt == vx_len - vx_dstart && vx_h <= (spec_u128)UINT64_MAX && *np == (uint64_t)vx_h)) && (vx_radix == 0 ==> (vx_len == 1 && *np == 0)))' % (RES, RES)),
     ('ensures', '[C04] failure is one of: empty string or a first character that is not a digit (invalid_argument); a character that is not a digit of the radix (invalid_argument at that character); a value that exceeds 2^64-1 at the digit where it first does (result_out_of_range)',
      '%s.ec != VX_ERRC_ok ==> ((%s.ec == VX_ERRC_result_out_of_range && vx_over) || (%s.ec == VX_ERRC_invalid_argument && (vx_bad_digit || vx_radix == 0)))' % (RES, RES, RES)),
+    ('ensures', '[C04] the empty string is invalid_argument; the two failure ghosts belong to their error codes; without a radix nothing was folded',
+     '(vx_len == 0 ==> %s.ec == VX_ERRC_invalid_argument) && (vx_over ==> %s.ec == VX_ERRC_result_out_of_range) && (vx_bad_digit ==> %s.ec == VX_ERRC_invalid_argument) && (vx_radix == 0 ==> (vx_h == 0 && vx_cnt == 0))' % (RES, RES, RES)),
     ('ensures', '[C05] the returned pointer is inside the string', '__CPROVER_same_object(%s.ptr, vx_s) && __CPROVER_POINTER_OFFSET(%s.ptr) <= vx_len' % (RES, RES)),
 ]
 I_RULES = [(r'to_number_result<CharT>\(ru\.ptr, ru\.ec\)', 'vx_mk_result(ru.ptr, ru.ec)', 1)] + MK + [
